@@ -167,7 +167,11 @@ func run(c jcase) (msg string, payloadLen int) {
 			{Key: "line", Exp: lm.Exp{Kind: lm.EInt, Big: big.NewInt(int64(line))}},
 		}}})
 	}
-	exp = append(exp, lm.EMember{Key: "msg", Exp: lm.Exp{Kind: lm.EString, Str: lm.Sanitize(c.msg)}})
+	wantMsg := c.msg
+	if !c.direct {
+		wantMsg = lm.FormMessage(c.form, c.msg)
+	}
+	exp = append(exp, lm.EMember{Key: "msg", Exp: lm.Exp{Kind: lm.EString, Str: lm.Sanitize(wantMsg)}})
 	exp = append(exp, lm.ExpectBody(c.chain, c.attrs)...)
 	if len(sink.Writes) != 1 {
 		return fmt.Sprintf("%d Write calls for one record, want exactly 1", len(sink.Writes)), 0
